@@ -40,6 +40,7 @@ def cases(tier):
         cs.append(dict(name=f"graddrop_m{m}", fn="graddrop", args=dict(m=m, n=1), weight=4))
     cs.append(dict(name="config_m2n2", fn="config", args=dict(m=2, n=2, pref=False), weight=9))
     cs.append(dict(name="config_pref_m2n2", fn="config", args=dict(m=2, n=2, pref=True), weight=9))
+    cs.append(dict(name="config_pref_zero_row_m3n2", fn="config_zero_row", args={}, weight=12))
     return cs
 
 
@@ -205,6 +206,28 @@ def case_graddrop(sp, m, n):
         return dict(kind="row_perm_entry", agg="graddrop", perm=list(perm), **cex_values(model, J=J, leak=leak if with_leak else None,
                     U=[R(z3.Real(f"U_seed0_{k + 1}")) for k in range(n)]))
     return [Ob("row_permutation_invariant[graddrop]", eq_all(out, out2), cex)]
+
+
+PYTHAGOREAN_ROWS = [([3, 4], [5, 12]), ([-8, 6], [3, 4]), ([4, -3], [-12, -5]), ([3, 4], [-4, 3])]
+
+
+def case_config_zero_row(sp):
+    """3 x 2 with one exactly-zero row (a task whose loss is flat) at every position and two independent rows: rank 2 without ambiguity; the
+    preference vector is SYMBOLIC and travels with the rows.  The two non-zero rows are concrete with rational norms (free rows leave z3 undecided
+    at 60 s: three nested square roots), so this case quantifies over all preference vectors, zero-row positions and both generators only."""
+    set_kernels()
+    m, n = 3, 2
+    z = choice(3, "zero_row")
+    r0, r1 = PYTHAGOREAN_ROWS[choice(len(PYTHAGOREAN_ROWS), "rows")]
+    J = [[R(x) for x in r0], [R(x) for x in r1]]
+    J.insert(z, [R(0), R(0)])
+    perm = gens(m)[choice(len(gens(m)), "generator")]
+    us = [named(f"u{i}") for i in range(m)]
+    out = ConFIG(pref_vector=T(us))(T(J))._flat()
+    out2 = ConFIG(pref_vector=T([us[perm[i]] for i in range(m)]))(T([J[perm[i]] for i in range(m)]))._flat()
+    def cex(model):
+        return dict(kind="row_perm_entry", agg="config", perm=list(perm), **cex_values(model, J=J, pref=us))
+    return [Ob("row_permutation_invariant[config]", eq_all(out, out2), cex)]
 
 
 def case_config(sp, m, n, pref):
